@@ -217,6 +217,9 @@ class Parser:
                 continue
             if line.startswith('alloc'):
                 j = i
+                if line.rstrip().endswith('{}'):
+                    i += 1
+                    continue
                 while j < n and L[j] != '}':
                     j += 1
                 self._alloc(i, j)
@@ -269,7 +272,7 @@ class Parser:
             b.ret = m.group(1)
         else:
             kind = 'static' if head.startswith('static ') else 'const'
-            m = re.match(r'(?:static|const) (?:mut )?(.*?): (.*) = \{$', head, re.S)
+            m = re.match(r'(?:static|const) (?:mut )?((?:<impl at [^>]*>|::|[^:])+?): (.*) = \{$', head, re.S)
             if not m:
                 raise MirParseError('bad item header: ' + head[:200])
             b = Body(m.group(1), kind)
@@ -278,8 +281,14 @@ class Parser:
         self._body(b, i + 1, j)
         b.argc = len(b.params)
         if b.name in self.bodies:
-            # duplicates happen for items printed twice (e.g. consts); keep first
-            return
+            # same printed name for distinct items (macro-generated impls share one span);
+            # promoted consts are printed once per use with identical bodies: keep first
+            if b.kind != 'fn':
+                return
+            k = 2
+            while '%s#%d' % (b.name, k) in self.bodies:
+                k += 1
+            b.name = '%s#%d' % (b.name, k)
         self.bodies[b.name] = b
         self.order.append(b.name)
 
